@@ -447,28 +447,23 @@ func (s *State) diffIOSACLs(al, bl []*cmd, diff []edit.Range) {
 		s.Changes[top-1] = del + "\n" + add
 	}
 
-	// Check if insert position is between first and last line
-	// of a block of ACl lines.
+	// Check if insert position is inside a block of ACL lines,
+	// i.e. lines directly above and below belong to the same block.
+	// Remarks belong to the block of the preceding lines; hence
+	// remarks following the last permit/deny line of a block
+	// are still inside that block.
 	// Returns action and blockID or empty action, if at border of block.
 	insideBlock := func(pos int) (string, int) {
-		var lowAct, highAct string
-		var id int
-		for i := pos - 1; i >= 0; i-- {
-			if a := getIOSAction(al[i]); a != "remark" {
-				lowAct = a
-				id = idx2Block[i]
-				break
-			}
+		if pos == 0 || pos == len(al) || idx2Block[pos-1] != idx2Block[pos] {
+			return "", 0
 		}
-		for i := pos; i < len(al); i++ {
-			if a := getIOSAction(al[i]); a != "remark" {
-				highAct = a
-				id = idx2Block[i]
-				break
+		id := idx2Block[pos]
+		for i, c := range al {
+			if idx2Block[i] == id {
+				if a := getIOSAction(c); a != "remark" {
+					return a, id
+				}
 			}
-		}
-		if lowAct == highAct {
-			return lowAct, id
 		}
 		return "", 0
 	}
